@@ -12,6 +12,7 @@ import (
 	"bytes"
 	"errors"
 	"fmt"
+	"runtime/debug"
 	"sort"
 	"strings"
 	"testing"
@@ -119,7 +120,7 @@ func claimTrue(model kit.OrdMap, k, v []byte) bool {
 func c05Generate(t fataler, st *c05State, keys [][]byte) (p [][]byte, err error) {
 	defer func() {
 		if r := recover(); r != nil {
-			t.Fatalf("Generate panicked: %v; state %s v1=%v keys %x", r, st.model.Describe(), st.v1, keys)
+			t.Fatalf("Generate panicked: %v; state %s v1=%v keys %x\n%s", r, st.model.Describe(), st.v1, keys, debug.Stack())
 		}
 	}()
 	return Generate(st.root[:], keys, st.db)
@@ -128,7 +129,7 @@ func c05Generate(t fataler, st *c05State, keys [][]byte) (p [][]byte, err error)
 func c05Verify(t fataler, st *c05State, p [][]byte, k, v []byte) (err error) {
 	defer func() {
 		if r := recover(); r != nil {
-			t.Fatalf("Verify panicked: %v; state %s v1=%v proof %s key %x value %x", r, st.model.Describe(), st.v1, descrProof(p), k, v)
+			t.Fatalf("Verify panicked: %v; state %s v1=%v proof %s key %x value %x\n%s", r, st.model.Describe(), st.v1, descrProof(p), k, v, debug.Stack())
 		}
 	}()
 	// Verify must not be handed slices it could corrupt for the next call
@@ -838,6 +839,10 @@ func TestC05Regressions(t *testing.T) {
 		// fixes/04: an inlined leaf with an empty value was dropped from the proof trie
 		{name: "inlined-leaf-empty-value", model: kit.OrdMap{"": []byte{}, "\x00": []byte{}}, prove: []string{"\x00"}},
 		{name: "inlined-leaf-empty-value-below-hashed-branch", model: kit.OrdMap{"\x00": []byte{}, "\x11": long(31, 6), "\x11\x11": []byte{}}, prove: []string{"\x00", "\x11\x11"}},
+		// checks/C02/fixes/01 (GetKeysWithPrefix index out of range): Generate -> Load -> GetKeysWithPrefix(":child_storage:default:")
+		// panicked when the root branch has a partial key longer than that prefix (44 nibbles) that diverges from it
+		{name: "generate-two-keys-branch-after-leaf", model: kit.OrdMap{strings.Repeat("\x00", 23): []byte{}, strings.Repeat("\x00", 31): []byte{}},
+			prove: []string{strings.Repeat("\x00", 31), strings.Repeat("\x00", 23)}},
 		// checks/C02/fixes (Get of an absent key): lookup ending at, or diverging inside, a branch
 		{name: "absent-key-ends-at-branch-position", model: kit.OrdMap{"\x01\x23": []byte("a"), "\x01\x23\x45": []byte("b"), "\x0f": []byte("c")}, prove: []string{"\x01\x23"},
 			reject: []claim{{k: []byte("\x01"), v: []byte("a")}, {k: []byte("\x01"), v: nil}}},
